@@ -49,6 +49,7 @@ Record InvH (s : state) : Prop := {
   h_2 : forall h : hid, hstop s h = true -> hc s h = HCDone;
   h_3 : forall h : hid, hc s h = HCCheck -> ctx_done s = true;
   h_4 : forall h : hid, hc s h = HCWaitPump -> 1 <= sub_closes s h;
+  h_4' : forall h : hid, hc s h = HCDecSignal -> 1 <= sub_closes s h;
   h_5 : forall h : hid, fix6 s = true -> early_cancel s = false -> hc_decided (hc s h) = true -> 1 <= sub_closes s h
 }.
 
@@ -57,7 +58,7 @@ Proof. constructor; simpl; intros; try congruence; destruct (Nat.ltb h n); simpl
 
 Lemma InvH_step s l s' : InvC s -> InvH s -> step s l = Some s' -> InvH s'.
 Proof.
-  intros IC [H1 H2 H3 H4 H5] H.
+  intros IC [H1 H2 H3 H4 H4' H5] H.
   pose proof (c_run1 s IC) as Crun.
   destruct l; step_cases H.
   all: constructor; simpl; intros; try solve [auto]; upd_all; try solve [auto]; fin.
@@ -160,7 +161,7 @@ Proof.
   split; [|assumption].
   intros m. destruct (Nat.lt_ge_cases m (nextm s)) as [Hlt|Hge].
   - rewrite Arwg in Hr. pose proof (cnt_zero in_progress (mp s) (nextm s) m Hr Hlt) as Hz.
-    destruct (mp s m) as [|h|h| | | | | |] eqn:E; simpl in *; try congruence.
+    destruct (mp s m) as [|h|h| | | | | | |] eqn:E; simpl in *; try congruence.
     + pose proof (Apump m h E) as Hp. specialize (Hloops h).
       destruct (lp s h) eqn:El; simpl in Hloops; try discriminate.
       * destruct (Nat.lt_ge_cases h (nh s)) as [Hl|Hg]; [exfalso; apply (Ahb2 h Hl El)|].
